@@ -1339,6 +1339,19 @@ Proof.
   destruct Hs as (e & st' & Es). rewrite Es. destruct (IH st' Hd) as [r Er]. rewrite Er. eexists; reflexivity.
 Qed.
 
+Lemma md_run_some full : forall d st, allowed no_meta d = true -> exists st', md_run full st d = Some st'.
+Proof.
+  induction d as [|t d IH]; intros st H; cbn [md_run]; [eexists; reflexivity|].
+  cbn [allowed forallb] in H. apply andb_prop in H. destruct H as [Ht Hd].
+  assert (Hs : exists st', md_step full st t (hd_error d) = Some st').
+  { destruct t as [sty s|b|b]; cbn [md_step].
+    - destruct (Nat.ltb 0 (ms_skip st)); [eexists; reflexivity|].
+      destruct (md_chunks full (split true s) (md_style st (styles_of sty))); eexists; reflexivity.
+    - destruct b; try discriminate Ht; eexists; reflexivity.
+    - destruct b; try discriminate Ht; eexists; reflexivity. }
+  destruct Hs as (st' & Es). rewrite Es. apply IH. exact Hd.
+Qed.
+
 Lemma roff_frags_some : forall d st, allowed no_termref d = true -> exists fs, roff_frags st d = Some fs.
 Proof.
   induction d as [|t d IH]; intros st H; cbn [roff_frags]; [eexists; reflexivity|].
@@ -1361,6 +1374,20 @@ Proof.
     intros b Hb. destruct b; try reflexivity; discriminate Hb. }
   destruct (html_run_some full d hs_init Ha) as [evs Ev].
   exists d, (html_bytes evs). split; [exact E|]. unfold render_html, render_html_events. rewrite Ev. reflexivity.
+Qed.
+
+(* render_markdown renders the same document as render_html (OptionParser::render_markdown = collect_html(..)
+   .render_markdown(true)); its only panic site is the `todo!()` of Block::Meta, which that document never holds *)
+Theorem render_markdown_returns env app o full : odok o ->
+  exists d md, collect_html env app (ometa_of o) (oinfo_of o) = Some d /\ render_markdown full d = Some md.
+Proof.
+  intros Ho. destruct (proj2 (proj2 meta_of_ok) o Ho) as [Hm Hi].
+  destruct (collect_html_total env app _ _ Hm Hi) as (d & E & _).
+  assert (Ha : allowed no_meta d = true).
+  { apply (al_collect_html no_meta) with (env := env) (app := app) (m := ometa_of o) (inf := oinfo_of o); auto.
+    intros b Hb. destruct b; try reflexivity; discriminate Hb. }
+  destruct (md_run_some full d ms_init Ha) as [st Ev].
+  exists d, (rev (ms_out st)). split; [exact E|]. unfold render_markdown. rewrite Ev. reflexivity.
 Qed.
 
 Theorem render_manpage_returns env app o : odok o ->
